@@ -66,7 +66,7 @@ structure FinDone (t : Tracker) (b p : Nat × Nat) (t' : Tracker) (ev : Event) :
   statusAbove : ∀ x, b.1 < x → t'.status x = t.status x
   parentsAbove : ∀ x, b.1 ≤ x.1 → t'.parents x = t.parents x
   evF : ev.finalized = some b
-  evI : ev.implFinalized = [] ∨ (p = (0, 0) ∧ ev.implFinalized = [(0, 0)])
+  evI : ev.implFinalized = [] ∨ (p = (0, 0) ∧ t.status 0 = some (.notarized 0) ∧ ev.implFinalized = [(0, 0)])
   evS : ev.implSkipped = List.range' (p.1 + 1) (b.1 - p.1 - 1)
 
 /-- `handle_finalized_block` for `b` whose registered parent `p` is finalized (or genesis), with only undecided slots between -/
@@ -117,6 +117,6 @@ theorem handleFinalizedBlock_spec (t : Tracker) (b p : Nat × Nat) (hlt : p.1 < 
       (fun x hx => by
         show (if x = 0 then _ else st' x) = st' x
         rw [if_neg (by simp only [] at hx; omega)])
-    exact ⟨_, _, rfl, a1, a2, a3, a4, a5, a6, rfl, Or.inr ⟨rfl, by simp⟩, by simp⟩
+    exact ⟨_, _, rfl, a1, a2, a3, a4, a5, a6, rfl, Or.inr ⟨rfl, hp0, by simp⟩, by simp⟩
 
 end AgModel.Finality
